@@ -186,7 +186,7 @@ def run_shards(prop, specs, timeout):
 
 
 def write_replay(prop, case, why):
-    d = os.path.join(VERIF, "replays", prop)
+    d = os.path.join(VERIF, "replays" if not os.environ.get("VERIF_NOEVIDENCE") else "work/replays-scratch", prop)
     os.makedirs(d, exist_ok=True)
     name = stable_hash([case, why]) + ".json"
     path = os.path.join(d, name)
@@ -233,7 +233,10 @@ def main_check(mod, tier, seed, replay_path=None):
         nviol += res["nviolations"]
         violations.extend(res["violations"])
         for k, v in res["counters"].items():
-            agg.counters[k] = agg.counters.get(k, 0) + v
+            if k.startswith("max_"):
+                agg.counters[k] = max(agg.counters.get(k, 0), v)
+            else:
+                agg.counters[k] = agg.counters.get(k, 0) + v
         for m, d in res["findings"].items():
             e = findings.setdefault(m, {"count": 0, "example": d["example"]})
             e["count"] += d["count"]
@@ -306,9 +309,10 @@ def main_check(mod, tier, seed, replay_path=None):
         "violations": nviol,
         "verdict": {0: "held-on-observed", 1: "violated", 2: "inconclusive"}[status],
     }
-    os.makedirs(os.path.join(VERIF, "evidence"), exist_ok=True)
-    with open(os.path.join(VERIF, "evidence", f"{prop}.json"), "w") as f:
-        json.dump(ev, f, indent=1, default=repr)
+    if not os.environ.get("VERIF_NOEVIDENCE"):
+        os.makedirs(os.path.join(VERIF, "evidence"), exist_ok=True)
+        with open(os.path.join(VERIF, "evidence", f"{prop}.json"), "w") as f:
+            json.dump(ev, f, indent=1, default=repr)
     for ln in lines:
         print(ln)
     print(
